@@ -187,6 +187,7 @@ def conclude(pid, tier, seed, t0, proof, results, what, failures_fn=None, extra_
                             "stages": [l for (l, _) in r.get("chk", [])]})
         elif len(samples) < 2 and (r.get("lines") or r.get("events")):
             samples.append({"instance": inst, "observations": r.get("lines") or r.get("events")[:6]})
+    corr = [(r, r["model_diff"]) for r in results if r.get("model_diff")]
     rc = 0
     lines = []
     seen = set()
@@ -200,6 +201,14 @@ def conclude(pid, tier, seed, t0, proof, results, what, failures_fn=None, extra_
                                 {"property": pid, "kind": "property-fails-on-implementation", "what": w,
                                  "detail": detail, "instance": r["inst"]})
         lines.append("VIOLATION property=%s replay=%s" % (pid, path))
+        rc = 1
+    if corr and rc == 0:
+        r, msg = corr[0]
+        path = lib.write_replay(pid, "corr-%s" % lib.case_hash(r["inst"]),
+                                {"property": pid, "kind": "correspondence-broken",
+                                 "correspondence": "functional model of Schedule (Schedule.v) vs implementation: " + what,
+                                 "first_difference": msg, "instance": r["inst"], "cases_differing": len(corr)})
+        lines.append("VIOLATION property=%s replay=%s no-failing-input-found" % (pid, path))
         rc = 1
     if not proof["ok"]:
         path = lib.write_replay(pid, "proof", {"property": pid, "kind": "proof-obligation-broken",
@@ -227,6 +236,7 @@ def conclude(pid, tier, seed, t0, proof, results, what, failures_fn=None, extra_
         "features": feats, "samples": samples, "pipeline_outcomes": statuses,
         "traces_validated_against_impl": answered,
         "property_failures_on_impl": len(violations), "known_findings_hit": sorted(seen), "compared": what,
+        "correspondence_differences": len(corr),
     }
     if extra_cov:
         cov.update(extra_cov)
@@ -238,7 +248,7 @@ def conclude(pid, tier, seed, t0, proof, results, what, failures_fn=None, extra_
                        time.time() - t0, len(violations))
     for l in lines:
         print(l)
-    print("%s: %d pipeline runs %s, %d property failures, %d known; proof %s (%d obligations)"
-          % (pid, len(results), statuses, len(violations), len(known), "ok" if proof["ok"] else "BROKEN",
+    print("%s: %d runs %s, %d correspondence differences, %d property failures, %d known; proof %s (%d obligations)"
+          % (pid, len(results), statuses, len(corr), len(violations), len(known), "ok" if proof["ok"] else "BROKEN",
              proof["obligations"]))
     return rc
